@@ -33,7 +33,7 @@ def gen_case(rng, ver, tier, force=None):
     turns = force.get("turns", rng.randint(1, 4 if tier != "quick" else 3))
     spec = {"ver": ver, "k": k, "m": m, "mode": mode, "exc": exc}
     if ver == "v1":
-        spec["in_shapes"] = [rng.choice(["v", "v", "allowed", "mask"] + (["evt"] if force.get("evt") else [])) for _ in range(k)]
+        spec["in_shapes"] = [rng.choice(["v", "v", "allowed", "mask"] + (["evt"] if force.get("evt") else []) + (["note"] if force.get("note") else [])) for _ in range(k)]
         spec["out_shapes"] = [rng.choice(["v", "v", "allowed"]) for _ in range(m)]
         spec["dialog_action"] = bool(mode == "dialog" and rng.random() < 0.3)
         if k >= 2 and rng.random() < 0.15:
@@ -47,7 +47,9 @@ def gen_case(rng, ver, tier, force=None):
         kinds.append(kind)
         for i in range(k):
             # (a rewrite would also mask the keyword that selects the predefined-message intent)
-            opts = ["ok", "ok", "ok", "block", "rewrite"] if (ver == "v1" and spec["in_shapes"][i] != "allowed" and kind != "fixed") else ["ok", "ok", "ok", "block"]
+            opts = ["ok", "ok", "ok", "block", "rewrite"] if (ver == "v1" and spec["in_shapes"][i] not in ("allowed", "note") and kind != "fixed") else ["ok", "ok", "ok", "block"]
+            if ver == "v1" and spec["in_shapes"][i] == "note":
+                opts = ["ok", "ok", "ok", "block", "note", "note"]
             V.append(["in", t, i, rng.choice(opts)])
         for i in range(m):
             if kind == "fixed":
@@ -133,9 +135,10 @@ def judge(case, records, app):
     rewritten_tokens = []  # original tokens of earlier turns whose text was rewritten by an input rail
     had_block = False
     had_fault = False
+    had_note = False
 
     def P(tag, t, what, detail=""):
-        problems.append({"tag": tag, "t": t, "what": what, "detail": str(detail)[:400], "after_fault": had_fault, "after_block": had_block})
+        problems.append({"tag": tag, "t": t, "what": what, "detail": str(detail)[:400], "after_fault": had_fault, "after_block": had_block, "after_note": had_note})
 
     for rec in records:
         t = rec["t"]
@@ -189,6 +192,17 @@ def judge(case, records, app):
             P(tagin, t, "malformed-reply", reply)
             continue
         got_in = [(e["idx"], e["text"]) for e in ins]
+        if mt.get("note_at") is not None:
+            # a rail said something without stopping: only the safety clauses - the rails up to it ran in order on the current
+            # text, whatever ran afterwards continues the configured order, and an LLM call needs ALL rails before it
+            stats["note_turns"] = stats.get("note_turns", 0) + 1
+            full = [i for i in (list(range(spec["k"])) + list(spec.get("dup_in") or []))]
+            if got_in[: len(mt["exp_in"])] != mt["exp_in"] or [i for i, _x in got_in] != full[: len(got_in)]:
+                P(tagin, t, "input-rail-calls-differ", {"got": got_in, "expected_prefix": mt["exp_in"]})
+            if llms and (len(got_in) < len(full) or min(e["clock"] for e in llms) < max(e["clock"] for e in ins)):
+                P(tagin, t, "llm-call-before-last-input-rail", "")
+            had_note = True
+            continue
         if got_in != mt["exp_in"]:
             P(tagin, t, "input-rail-calls-differ", {"got": got_in, "expected": mt["exp_in"]})
         if mt["in_blocked"] is not None:
